@@ -95,7 +95,7 @@ func ParseProgram(line []byte) (Program, error) {
 // Values of the abstract identifiers.
 var (
 	// ExprValues are what env.E(i) returns: no whitespace, but markup metacharacters.
-	ExprValues = map[string]string{"E1": `V1<&>`, "E2": `V2"'=`, "M1": `M1&v`}
+	ExprValues = map[string]string{"E1": `V1<&>`, "E2": `V2"'=`, "M1": `M1&v`, "K1": "cls1"}
 	// ConstSpelled is how a constant attribute value id is written in the source (double-quoted form);
 	// ConstDecoded is the value the attribute denotes.
 	ConstDecoded = map[string]string{"k1": "v1", "k2": "a&b<c", "k3": `q"q`, "k4": "x&lt;y&#39;"}
@@ -177,6 +177,12 @@ func (p *printer) attrs(as []Attr, depth int) {
 				fmt.Fprintf(&p.sb, "%s%s={env.E(%s)}", sep, a.N, num(a.E))
 			} else {
 				fmt.Fprintf(&p.sb, "%s%s={ env.E(%s) }", sep, a.N, num(a.E))
+			}
+		case "class":
+			if p.v == 1 {
+				fmt.Fprintf(&p.sb, "%sclass={env.K(%s)}", sep, num(a.E))
+			} else {
+				fmt.Fprintf(&p.sb, "%sclass={ env.K(%s) }", sep, num(a.E))
 			}
 		case "spread":
 			if p.v == 1 {
